@@ -86,15 +86,44 @@ package query
 //@   ensures [other-tables-untouched] forallv(k, string, k != idPath(fileInfo) ==> has(m.Updated, k) == old(has(m.Updated, k)) && has(m.Created, k) == old(has(m.Created, k)))
 //@   modifies mutexHeld, m.Updated[*], m.Created[*]
 
-// C05: UPDATE stores the assigned value into the named column of the matched row: after the assignment of one SET item the
-// cell of that column holds the value the item's expression evaluated to (whatever the cell held before, also a value that
-// compares equal to it).
-//@ func Update!assign
-//@   property C05
-//@   abstract *
-//@   loop 3 step [named-column-gets-the-assigned-value] viewsToUpdate[viewref].RecordSet[internalId][fieldIdx][0] == val
+// MAX / MIN: NULL exactly when the bucket holds no value; otherwise one of the bucket's own (non-NULL) values
+//@ func Max
+//@   property C04
+//@   requires flags != nil
+//@   ensures [null-iff-the-bucket-holds-no-value] (result == value.null) == (nnCount(list, len(list)) == 0)
+//@   ensures [one-of-the-buckets-values] result != value.null ==> exists(k, 0, len(list), list[k] == result)
+//@   loop 1 invariant 0 <= $i && $i <= len(list)
+//@   loop 1 invariant (result@1 == value.null) == (nnCount(list, $i) == 0)
+//@   loop 1 invariant result@1 != value.null ==> exists(k, 0, $i, list[k] == result@1)
 //@   modifies *
-//@ func NewCell
-//@   property C05
-//@   ensures [one-value-cell] len(result) == 1 && result[0] == val && fresh(result)
+//@ func Min
+//@   property C04
+//@   requires flags != nil
+//@   ensures [null-iff-the-bucket-holds-no-value] (result == value.null) == (nnCount(list, len(list)) == 0)
+//@   ensures [one-of-the-buckets-values] result != value.null ==> exists(k, 0, len(list), list[k] == result)
+//@   loop 1 invariant 0 <= $i && $i <= len(list)
+//@   loop 1 invariant (result@1 == value.null) == (nnCount(list, $i) == 0)
+//@   loop 1 invariant result@1 != value.null ==> exists(k, 0, $i, list[k] == result@1)
+//@   modifies *
+
+// ---------------------------------------------------------------------------------------------
+// C03: the row of a join is the left row's cells followed by the right row's cells (the variant without a record pool;
+// callers keep verifying against the body)
+//@ func (Record).Merge
+//@   property C03
+//@   inline
+//@   requires pool == nil && len(r) + len(r2) <= MaxInt64
+//@   ensures [left-cells-then-right-cells] len(result) == len(r) + len(r2) && fresh(result) && forall(c, 0, len(r), result[c] == r[c]) && forall(c, 0, len(r2), result[len(r) + c] == r2[c])
+//@   loop 1 invariant 0 <= $i && $i <= len(r) && len(record) == len(r) + len(r2) && fresh(record) && leftLen == len(r) && forall(c, 0, $i, record[c] == r[c])
+//@   loop 1 modifies record[*]
+//@   loop 2 invariant 0 <= $i && $i <= len(r2) && len(record) == len(r) + len(r2) && fresh(record) && leftLen == len(r) && forall(c, 0, len(r), record[c] == r[c]) && forall(c, 0, $i, record[len(r) + c] == r2[c])
+//@   loop 2 modifies record[*]
 //@   modifies nothing
+
+// C06: ANY over no row is FALSE and ALL over no row is TRUE, whatever the left-hand side is (also NULL): IN / NOT IN / ANY /
+// ALL over an empty sub-query
+//@ func InRowValueList
+//@   property C06
+//@   inline
+//@   ensures [any-over-no-row-is-false-and-all-over-no-row-is-true] len(list) == 0 ==> result1 == nil && result0 == ite(matchType == parser.ANY, ternary.FALSE, ternary.TRUE)
+//@   modifies *
